@@ -142,3 +142,32 @@ PROPS["C10"] = {
              "Non-trivial = same scheme and same host presence/text (the relative branch is reachable); distinct by (S, B, mode)"),
     "assumptions": ["when both S and B lack a scheme either error code is accepted"],
 }
+
+PROPS["C09"] = {
+    "level": "exploration",
+    "technique": "property-based testing (rapidcheck): metamorphic relation normalize(resolve(normalize(R),B)) == normalize(resolve(R,B)) plus kind-preservation invariants",
+    "level_text": ("Generated references of all kinds (constructed without percent-encoded dots) are crossed with absolute bases of all shapes; resolving the normalised reference and "
+                   "the original one must give the same normalised URI (text and uriEqualsUri), and normalisation alone must neither add/remove scheme or authority nor change a "
+                   "scheme-less, authority-less path between empty / relative / absolute (judged on the recomposed text). A metamorphic relation needs no normal-form model, so it also "
+                   "guards the model-based C08 check from shared mistakes."),
+    "level_note": "Trusted: uriAddBaseUri (checked by C06). A defect that shifts both sides equally is invisible here. One open known finding (F-N1: relative path cancels to nothing; pinned by the repository's tests) is excluded by class and counted.",
+    "quick": {"cases": 50000},
+    "thorough": {"cases": 1200000, "ceiling_s": 3000},
+    "rule": ("(B, R) from one pool: R relative-path 35%, absolute-path 20%, same-scheme absolute 15%, other scheme 10%, network-path 10%, empty path 10%; B absolute with authority / rooted / "
+             "rootless / empty path; segment vocabulary without %2e. Non-trivial = R is a relative-path or absolute-path reference whose path changes under normalisation; distinct by (B, R)"),
+    "assumptions": ["references containing a percent-encoded dot are outside the statement and never generated (a safety filter counts discards: expected 0)"],
+}
+
+PROPS["C11"] = {
+    "level": "exploration",
+    "technique": "property-based testing (rapidcheck): differential against a component-identity model over mutated pairs, triples and history-produced objects; algebraic laws",
+    "level_text": ("uriEqualsUri is compared with component-wise identity of independent snapshots (absent != empty, IP hosts by value, absolutePath, segment sequence) on independent pairs, "
+                   "single-component mutations (14 kinds), equal-by-construction copies and objects produced by generated histories; reflexivity, symmetry, transitivity over triples, NULL "
+                   "handling and bit-for-bit immutability of both arguments are checked, and for library-produced objects equality must coincide with identity of the recomposed texts."),
+    "level_note": "Trusted: snapshot() (reads the public struct fields), uriToString for the text clause (C04/C05).",
+    "quick": {"cases": 40000},
+    "thorough": {"cases": 1500000, "ceiling_s": 3000},
+    "rule": ("arms: 17% three independent G_uri texts, 42% text + single-component mutation (+ second mutation or copy), 17% equal by construction (re-parse / make-owner copy / resolve empty reference), "
+             "25% three objects out of a generated history. Non-trivial = the pair differs in exactly one component, or is equal without being the independent arm; distinct by case"),
+    "assumptions": [],
+}
